@@ -10,19 +10,19 @@ open MongoModel.Vocab
 
 /-- every call of a dispatch helper in a module-level function of aggregate.py; the helpers: _accumulate_group (accumulator), _parse_expression (expr), process_pipeline (stage), filter_applies (query) -/
 def callSites : List CallSite := [
-  ⟨"_accumulate_group", "_parse_expression", 1176⟩,
-  ⟨"_handle_graph_lookup_stage", "filter_applies", 1327⟩,
-  ⟨"_handle_graph_lookup_stage", "_parse_expression", 1339⟩,
-  ⟨"_handle_group_stage", "_parse_expression", 1362⟩,
-  ⟨"_handle_group_stage", "_accumulate_group", 1378⟩,
-  ⟨"_handle_bucket_stage", "_parse_expression", 1429⟩,
-  ⟨"_handle_bucket_stage", "_accumulate_group", 1444⟩,
-  ⟨"_handle_replace_root_stage", "_parse_expression", 1622⟩,
-  ⟨"_handle_project_stage", "_parse_expression", 1663⟩,
-  ⟨"_handle_add_fields_stage", "_parse_expression", 1695⟩,
-  ⟨"_handle_facet_stage", "process_pipeline", 1736⟩,
-  ⟨"_handle_match_stage", "filter_applies", 1745⟩,
-  ⟨"_handle_match_stage", "filter_applies", 1748⟩]
+  ⟨"_accumulate_group", "_parse_expression", 1237⟩,
+  ⟨"_handle_graph_lookup_stage", "filter_applies", 1388⟩,
+  ⟨"_handle_graph_lookup_stage", "_parse_expression", 1400⟩,
+  ⟨"_handle_group_stage", "_parse_expression", 1423⟩,
+  ⟨"_handle_group_stage", "_accumulate_group", 1439⟩,
+  ⟨"_handle_bucket_stage", "_parse_expression", 1490⟩,
+  ⟨"_handle_bucket_stage", "_accumulate_group", 1505⟩,
+  ⟨"_handle_replace_root_stage", "_parse_expression", 1686⟩,
+  ⟨"_handle_project_stage", "_parse_expression", 1727⟩,
+  ⟨"_handle_add_fields_stage", "_parse_expression", 1759⟩,
+  ⟨"_handle_facet_stage", "process_pipeline", 1800⟩,
+  ⟨"_handle_match_stage", "filter_applies", 1809⟩,
+  ⟨"_handle_match_stage", "filter_applies", 1812⟩]
 
 /-- ⟨`<stage>/<key path in the probed specification>:<family>`, index of the call site⟩ -/
 def sites : List Site := [
@@ -44,61 +44,61 @@ def sites : List Site := [
 
 /-! distinct classifications -/
 def scls_0 : NameClass :=
-  { op := true, comment := false, expr := false, not_ := false, all := false, exists_ := false, neNin := false, each := false, needsDecimal := false, operatorMap := false, logical := false, logicalConst := false, topNI := false, fieldNI := false, updater := false, updateInline := false, pushMod := false, stageImpl := false, exprHit := none, exprNI := false, grouping := false, groupInline := false, typeImpl := false, typeNone := false }
+  { op := true, comment := false, expr := false, not_ := false, all := false, exists_ := false, neNin := false, each := false, needsDecimal := false, operatorMap := false, logical := false, logicalConst := false, topNI := false, fieldNI := false, updater := false, updateInline := false, updateChecked := false, pushMod := false, stageImpl := false, exprHit := none, exprNI := false, grouping := false, groupInline := false, typeImpl := false, typeNone := false }
 def scls_1 : NameClass :=
-  { op := true, comment := false, expr := false, not_ := false, all := false, exists_ := false, neNin := true, each := false, needsDecimal := false, operatorMap := true, logical := false, logicalConst := false, topNI := false, fieldNI := false, updater := false, updateInline := false, pushMod := false, stageImpl := false, exprHit := some true, exprNI := false, grouping := false, groupInline := false, typeImpl := false, typeNone := false }
+  { op := true, comment := false, expr := false, not_ := false, all := false, exists_ := false, neNin := true, each := false, needsDecimal := false, operatorMap := true, logical := false, logicalConst := false, topNI := false, fieldNI := false, updater := false, updateInline := false, updateChecked := false, pushMod := false, stageImpl := false, exprHit := some true, exprNI := false, grouping := false, groupInline := false, typeImpl := false, typeNone := false }
 def scls_2 : NameClass :=
-  { op := true, comment := false, expr := false, not_ := false, all := false, exists_ := false, neNin := false, each := false, needsDecimal := false, operatorMap := true, logical := false, logicalConst := false, topNI := false, fieldNI := false, updater := false, updateInline := false, pushMod := false, stageImpl := false, exprHit := some true, exprNI := false, grouping := false, groupInline := false, typeImpl := false, typeNone := false }
+  { op := true, comment := false, expr := false, not_ := false, all := false, exists_ := false, neNin := false, each := false, needsDecimal := false, operatorMap := true, logical := false, logicalConst := false, topNI := false, fieldNI := false, updater := false, updateInline := false, updateChecked := false, pushMod := false, stageImpl := false, exprHit := some true, exprNI := false, grouping := false, groupInline := false, typeImpl := false, typeNone := false }
 def scls_3 : NameClass :=
-  { op := true, comment := false, expr := false, not_ := false, all := false, exists_ := false, neNin := false, each := false, needsDecimal := false, operatorMap := false, logical := false, logicalConst := false, topNI := false, fieldNI := false, updater := false, updateInline := false, pushMod := false, stageImpl := false, exprHit := some true, exprNI := false, grouping := false, groupInline := false, typeImpl := false, typeNone := false }
+  { op := true, comment := false, expr := false, not_ := false, all := false, exists_ := false, neNin := false, each := false, needsDecimal := false, operatorMap := false, logical := false, logicalConst := false, topNI := false, fieldNI := false, updater := false, updateInline := false, updateChecked := false, pushMod := false, stageImpl := false, exprHit := some true, exprNI := false, grouping := false, groupInline := false, typeImpl := false, typeNone := false }
 def scls_4 : NameClass :=
-  { op := true, comment := false, expr := false, not_ := false, all := false, exists_ := false, neNin := false, each := false, needsDecimal := false, operatorMap := false, logical := true, logicalConst := false, topNI := false, fieldNI := false, updater := false, updateInline := false, pushMod := false, stageImpl := false, exprHit := some true, exprNI := false, grouping := false, groupInline := false, typeImpl := false, typeNone := false }
+  { op := true, comment := false, expr := false, not_ := false, all := false, exists_ := false, neNin := false, each := false, needsDecimal := false, operatorMap := false, logical := true, logicalConst := false, topNI := false, fieldNI := false, updater := false, updateInline := false, updateChecked := false, pushMod := false, stageImpl := false, exprHit := some true, exprNI := false, grouping := false, groupInline := false, typeImpl := false, typeNone := false }
 def scls_5 : NameClass :=
-  { op := true, comment := false, expr := false, not_ := false, all := false, exists_ := false, neNin := false, each := false, needsDecimal := false, operatorMap := false, logical := false, logicalConst := false, topNI := false, fieldNI := false, updater := false, updateInline := false, pushMod := false, stageImpl := false, exprHit := some true, exprNI := false, grouping := true, groupInline := false, typeImpl := false, typeNone := false }
+  { op := true, comment := false, expr := false, not_ := false, all := false, exists_ := false, neNin := false, each := false, needsDecimal := false, operatorMap := false, logical := false, logicalConst := false, topNI := false, fieldNI := false, updater := false, updateInline := false, updateChecked := false, pushMod := false, stageImpl := false, exprHit := some true, exprNI := false, grouping := true, groupInline := false, typeImpl := false, typeNone := false }
 def scls_6 : NameClass :=
-  { op := true, comment := false, expr := false, not_ := false, all := true, exists_ := false, neNin := false, each := false, needsDecimal := false, operatorMap := true, logical := false, logicalConst := false, topNI := false, fieldNI := false, updater := false, updateInline := false, pushMod := false, stageImpl := false, exprHit := none, exprNI := false, grouping := false, groupInline := false, typeImpl := false, typeNone := false }
+  { op := true, comment := false, expr := false, not_ := false, all := true, exists_ := false, neNin := false, each := false, needsDecimal := false, operatorMap := true, logical := false, logicalConst := false, topNI := false, fieldNI := false, updater := false, updateInline := false, updateChecked := false, pushMod := false, stageImpl := false, exprHit := none, exprNI := false, grouping := false, groupInline := false, typeImpl := false, typeNone := false }
 def scls_7 : NameClass :=
-  { op := true, comment := false, expr := false, not_ := false, all := false, exists_ := false, neNin := false, each := false, needsDecimal := false, operatorMap := false, logical := false, logicalConst := false, topNI := false, fieldNI := false, updater := true, updateInline := false, pushMod := false, stageImpl := false, exprHit := some true, exprNI := false, grouping := true, groupInline := false, typeImpl := false, typeNone := false }
+  { op := true, comment := false, expr := false, not_ := false, all := false, exists_ := false, neNin := false, each := false, needsDecimal := false, operatorMap := false, logical := false, logicalConst := false, topNI := false, fieldNI := false, updater := true, updateInline := false, updateChecked := true, pushMod := false, stageImpl := false, exprHit := some true, exprNI := false, grouping := true, groupInline := false, typeImpl := false, typeNone := false }
 def scls_8 : NameClass :=
-  { op := true, comment := false, expr := false, not_ := false, all := false, exists_ := false, neNin := true, each := false, needsDecimal := false, operatorMap := true, logical := false, logicalConst := false, topNI := false, fieldNI := false, updater := false, updateInline := false, pushMod := false, stageImpl := false, exprHit := none, exprNI := false, grouping := false, groupInline := false, typeImpl := false, typeNone := false }
+  { op := true, comment := false, expr := false, not_ := false, all := false, exists_ := false, neNin := true, each := false, needsDecimal := false, operatorMap := true, logical := false, logicalConst := false, topNI := false, fieldNI := false, updater := false, updateInline := false, updateChecked := false, pushMod := false, stageImpl := false, exprHit := none, exprNI := false, grouping := false, groupInline := false, typeImpl := false, typeNone := false }
 def scls_9 : NameClass :=
-  { op := true, comment := false, expr := false, not_ := false, all := false, exists_ := false, neNin := false, each := false, needsDecimal := false, operatorMap := false, logical := false, logicalConst := false, topNI := false, fieldNI := false, updater := false, updateInline := false, pushMod := false, stageImpl := false, exprHit := some false, exprNI := false, grouping := false, groupInline := false, typeImpl := false, typeNone := false }
+  { op := true, comment := false, expr := false, not_ := false, all := false, exists_ := false, neNin := false, each := false, needsDecimal := false, operatorMap := false, logical := false, logicalConst := false, topNI := false, fieldNI := false, updater := false, updateInline := false, updateChecked := false, pushMod := false, stageImpl := false, exprHit := some false, exprNI := false, grouping := false, groupInline := false, typeImpl := false, typeNone := false }
 def scls_10 : NameClass :=
-  { op := true, comment := false, expr := false, not_ := false, all := false, exists_ := false, neNin := false, each := false, needsDecimal := false, operatorMap := false, logical := true, logicalConst := false, topNI := false, fieldNI := false, updater := false, updateInline := false, pushMod := false, stageImpl := false, exprHit := none, exprNI := false, grouping := false, groupInline := false, typeImpl := false, typeNone := false }
+  { op := true, comment := false, expr := false, not_ := false, all := false, exists_ := false, neNin := false, each := false, needsDecimal := false, operatorMap := false, logical := true, logicalConst := false, topNI := false, fieldNI := false, updater := false, updateInline := false, updateChecked := false, pushMod := false, stageImpl := false, exprHit := none, exprNI := false, grouping := false, groupInline := false, typeImpl := false, typeNone := false }
 def scls_11 : NameClass :=
-  { op := true, comment := false, expr := false, not_ := false, all := false, exists_ := false, neNin := false, each := false, needsDecimal := false, operatorMap := false, logical := false, logicalConst := false, topNI := false, fieldNI := false, updater := false, updateInline := false, pushMod := false, stageImpl := false, exprHit := some true, exprNI := true, grouping := false, groupInline := false, typeImpl := false, typeNone := false }
+  { op := true, comment := false, expr := false, not_ := false, all := false, exists_ := false, neNin := false, each := false, needsDecimal := false, operatorMap := false, logical := false, logicalConst := false, topNI := false, fieldNI := false, updater := false, updateInline := false, updateChecked := false, pushMod := false, stageImpl := false, exprHit := some true, exprNI := true, grouping := false, groupInline := false, typeImpl := false, typeNone := false }
 def scls_12 : NameClass :=
-  { op := true, comment := false, expr := false, not_ := false, all := false, exists_ := false, neNin := false, each := false, needsDecimal := false, operatorMap := false, logical := false, logicalConst := false, topNI := false, fieldNI := false, updater := true, updateInline := false, pushMod := false, stageImpl := true, exprHit := none, exprNI := false, grouping := false, groupInline := false, typeImpl := false, typeNone := false }
+  { op := true, comment := false, expr := false, not_ := false, all := false, exists_ := false, neNin := false, each := false, needsDecimal := false, operatorMap := false, logical := false, logicalConst := false, topNI := false, fieldNI := false, updater := true, updateInline := false, updateChecked := true, pushMod := false, stageImpl := true, exprHit := none, exprNI := false, grouping := false, groupInline := false, typeImpl := false, typeNone := false }
 def scls_13 : NameClass :=
-  { op := true, comment := false, expr := false, not_ := true, all := false, exists_ := false, neNin := false, each := false, needsDecimal := false, operatorMap := false, logical := true, logicalConst := true, topNI := false, fieldNI := false, updater := false, updateInline := false, pushMod := false, stageImpl := false, exprHit := some true, exprNI := false, grouping := false, groupInline := false, typeImpl := false, typeNone := false }
+  { op := true, comment := false, expr := false, not_ := true, all := false, exists_ := false, neNin := false, each := false, needsDecimal := false, operatorMap := false, logical := true, logicalConst := true, topNI := false, fieldNI := false, updater := false, updateInline := false, updateChecked := false, pushMod := false, stageImpl := false, exprHit := some true, exprNI := false, grouping := false, groupInline := false, typeImpl := false, typeNone := false }
 def scls_14 : NameClass :=
-  { op := true, comment := false, expr := false, not_ := false, all := false, exists_ := false, neNin := false, each := false, needsDecimal := false, operatorMap := false, logical := false, logicalConst := false, topNI := false, fieldNI := false, updater := false, updateInline := false, pushMod := false, stageImpl := true, exprHit := none, exprNI := false, grouping := false, groupInline := false, typeImpl := false, typeNone := false }
+  { op := true, comment := false, expr := false, not_ := false, all := false, exists_ := false, neNin := false, each := false, needsDecimal := false, operatorMap := false, logical := false, logicalConst := false, topNI := false, fieldNI := false, updater := false, updateInline := false, updateChecked := false, pushMod := false, stageImpl := true, exprHit := none, exprNI := false, grouping := false, groupInline := false, typeImpl := false, typeNone := false }
 def scls_15 : NameClass :=
-  { op := true, comment := false, expr := false, not_ := false, all := false, exists_ := false, neNin := false, each := false, needsDecimal := false, operatorMap := false, logical := false, logicalConst := false, topNI := false, fieldNI := false, updater := false, updateInline := false, pushMod := false, stageImpl := false, exprHit := none, exprNI := true, grouping := false, groupInline := false, typeImpl := false, typeNone := false }
+  { op := true, comment := false, expr := false, not_ := false, all := false, exists_ := false, neNin := false, each := false, needsDecimal := false, operatorMap := false, logical := false, logicalConst := false, topNI := false, fieldNI := false, updater := false, updateInline := false, updateChecked := false, pushMod := false, stageImpl := false, exprHit := none, exprNI := true, grouping := false, groupInline := false, typeImpl := false, typeNone := false }
 def scls_16 : NameClass :=
-  { op := true, comment := false, expr := false, not_ := false, all := false, exists_ := false, neNin := false, each := false, needsDecimal := false, operatorMap := true, logical := false, logicalConst := false, topNI := false, fieldNI := false, updater := false, updateInline := false, pushMod := false, stageImpl := false, exprHit := none, exprNI := false, grouping := false, groupInline := false, typeImpl := false, typeNone := false }
+  { op := true, comment := false, expr := false, not_ := false, all := false, exists_ := false, neNin := false, each := false, needsDecimal := false, operatorMap := true, logical := false, logicalConst := false, topNI := false, fieldNI := false, updater := false, updateInline := false, updateChecked := false, pushMod := false, stageImpl := false, exprHit := none, exprNI := false, grouping := false, groupInline := false, typeImpl := false, typeNone := false }
 def scls_17 : NameClass :=
-  { op := true, comment := false, expr := false, not_ := false, all := false, exists_ := false, neNin := false, each := false, needsDecimal := false, operatorMap := false, logical := false, logicalConst := false, topNI := false, fieldNI := false, updater := false, updateInline := true, pushMod := false, stageImpl := false, exprHit := none, exprNI := false, grouping := false, groupInline := true, typeImpl := false, typeNone := false }
+  { op := true, comment := false, expr := false, not_ := false, all := false, exists_ := false, neNin := false, each := false, needsDecimal := false, operatorMap := false, logical := false, logicalConst := false, topNI := false, fieldNI := false, updater := false, updateInline := true, updateChecked := true, pushMod := false, stageImpl := false, exprHit := none, exprNI := false, grouping := false, groupInline := true, typeImpl := false, typeNone := false }
 def scls_18 : NameClass :=
-  { op := true, comment := false, expr := false, not_ := false, all := false, exists_ := false, neNin := false, each := false, needsDecimal := false, operatorMap := false, logical := false, logicalConst := false, topNI := false, fieldNI := true, updater := false, updateInline := false, pushMod := false, stageImpl := false, exprHit := none, exprNI := false, grouping := false, groupInline := false, typeImpl := false, typeNone := false }
+  { op := true, comment := false, expr := false, not_ := false, all := false, exists_ := false, neNin := false, each := false, needsDecimal := false, operatorMap := false, logical := false, logicalConst := false, topNI := false, fieldNI := true, updater := false, updateInline := false, updateChecked := false, pushMod := false, stageImpl := false, exprHit := none, exprNI := false, grouping := false, groupInline := false, typeImpl := false, typeNone := false }
 def scls_19 : NameClass :=
-  { op := true, comment := false, expr := true, not_ := false, all := false, exists_ := false, neNin := false, each := false, needsDecimal := false, operatorMap := false, logical := false, logicalConst := false, topNI := true, fieldNI := false, updater := false, updateInline := false, pushMod := false, stageImpl := false, exprHit := none, exprNI := false, grouping := false, groupInline := false, typeImpl := false, typeNone := false }
+  { op := true, comment := false, expr := true, not_ := false, all := false, exists_ := false, neNin := false, each := false, needsDecimal := false, operatorMap := false, logical := false, logicalConst := false, topNI := true, fieldNI := false, updater := false, updateInline := false, updateChecked := false, pushMod := false, stageImpl := false, exprHit := none, exprNI := false, grouping := false, groupInline := false, typeImpl := false, typeNone := false }
 def scls_20 : NameClass :=
-  { op := true, comment := false, expr := false, not_ := false, all := false, exists_ := false, neNin := false, each := false, needsDecimal := false, operatorMap := false, logical := false, logicalConst := false, topNI := false, fieldNI := false, updater := false, updateInline := false, pushMod := true, stageImpl := true, exprHit := none, exprNI := false, grouping := false, groupInline := false, typeImpl := false, typeNone := false }
+  { op := true, comment := false, expr := false, not_ := false, all := false, exists_ := false, neNin := false, each := false, needsDecimal := false, operatorMap := false, logical := false, logicalConst := false, topNI := false, fieldNI := false, updater := false, updateInline := false, updateChecked := false, pushMod := true, stageImpl := true, exprHit := none, exprNI := false, grouping := false, groupInline := false, typeImpl := false, typeNone := false }
 def scls_21 : NameClass :=
-  { op := true, comment := false, expr := false, not_ := false, all := false, exists_ := false, neNin := false, each := false, needsDecimal := false, operatorMap := false, logical := false, logicalConst := false, topNI := true, fieldNI := false, updater := false, updateInline := false, pushMod := false, stageImpl := false, exprHit := none, exprNI := false, grouping := false, groupInline := false, typeImpl := false, typeNone := false }
+  { op := true, comment := false, expr := false, not_ := false, all := false, exists_ := false, neNin := false, each := false, needsDecimal := false, operatorMap := false, logical := false, logicalConst := false, topNI := true, fieldNI := false, updater := false, updateInline := false, updateChecked := false, pushMod := false, stageImpl := false, exprHit := none, exprNI := false, grouping := false, groupInline := false, typeImpl := false, typeNone := false }
 def scls_22 : NameClass :=
-  { op := true, comment := false, expr := false, not_ := false, all := false, exists_ := false, neNin := false, each := false, needsDecimal := false, operatorMap := false, logical := false, logicalConst := false, topNI := false, fieldNI := false, updater := false, updateInline := false, pushMod := true, stageImpl := false, exprHit := some true, exprNI := false, grouping := false, groupInline := false, typeImpl := false, typeNone := false }
+  { op := true, comment := false, expr := false, not_ := false, all := false, exists_ := false, neNin := false, each := false, needsDecimal := false, operatorMap := false, logical := false, logicalConst := false, topNI := false, fieldNI := false, updater := false, updateInline := false, updateChecked := false, pushMod := true, stageImpl := false, exprHit := some true, exprNI := false, grouping := false, groupInline := false, typeImpl := false, typeNone := false }
 def scls_23 : NameClass :=
-  { op := true, comment := false, expr := false, not_ := false, all := false, exists_ := false, neNin := false, each := false, needsDecimal := false, operatorMap := false, logical := false, logicalConst := false, topNI := false, fieldNI := false, updater := true, updateInline := false, pushMod := false, stageImpl := false, exprHit := none, exprNI := false, grouping := false, groupInline := false, typeImpl := false, typeNone := false }
+  { op := true, comment := false, expr := false, not_ := false, all := false, exists_ := false, neNin := false, each := false, needsDecimal := false, operatorMap := false, logical := false, logicalConst := false, topNI := false, fieldNI := false, updater := true, updateInline := false, updateChecked := true, pushMod := false, stageImpl := false, exprHit := none, exprNI := false, grouping := false, groupInline := false, typeImpl := false, typeNone := false }
 def scls_24 : NameClass :=
-  { op := true, comment := false, expr := false, not_ := false, all := false, exists_ := false, neNin := false, each := false, needsDecimal := true, operatorMap := false, logical := false, logicalConst := false, topNI := false, fieldNI := false, updater := false, updateInline := false, pushMod := false, stageImpl := false, exprHit := some true, exprNI := false, grouping := false, groupInline := false, typeImpl := false, typeNone := false }
+  { op := true, comment := false, expr := false, not_ := false, all := false, exists_ := false, neNin := false, each := false, needsDecimal := true, operatorMap := false, logical := false, logicalConst := false, topNI := false, fieldNI := false, updater := false, updateInline := false, updateChecked := false, pushMod := false, stageImpl := false, exprHit := some true, exprNI := false, grouping := false, groupInline := false, typeImpl := false, typeNone := false }
 def scls_25 : NameClass :=
-  { op := true, comment := false, expr := false, not_ := false, all := false, exists_ := true, neNin := false, each := false, needsDecimal := false, operatorMap := true, logical := false, logicalConst := false, topNI := false, fieldNI := false, updater := false, updateInline := false, pushMod := false, stageImpl := false, exprHit := none, exprNI := false, grouping := false, groupInline := false, typeImpl := false, typeNone := false }
+  { op := true, comment := false, expr := false, not_ := false, all := false, exists_ := true, neNin := false, each := false, needsDecimal := false, operatorMap := true, logical := false, logicalConst := false, topNI := false, fieldNI := false, updater := false, updateInline := false, updateChecked := false, pushMod := false, stageImpl := false, exprHit := none, exprNI := false, grouping := false, groupInline := false, typeImpl := false, typeNone := false }
 def scls_26 : NameClass :=
-  { op := true, comment := true, expr := false, not_ := false, all := false, exists_ := false, neNin := false, each := false, needsDecimal := false, operatorMap := false, logical := false, logicalConst := false, topNI := false, fieldNI := false, updater := false, updateInline := false, pushMod := false, stageImpl := false, exprHit := none, exprNI := false, grouping := false, groupInline := false, typeImpl := false, typeNone := false }
+  { op := true, comment := true, expr := false, not_ := false, all := false, exists_ := false, neNin := false, each := false, needsDecimal := false, operatorMap := false, logical := false, logicalConst := false, topNI := false, fieldNI := false, updater := false, updateInline := false, updateChecked := false, pushMod := false, stageImpl := false, exprHit := none, exprNI := false, grouping := false, groupInline := false, typeImpl := false, typeNone := false }
 def scls_27 : NameClass :=
-  { op := true, comment := false, expr := false, not_ := false, all := false, exists_ := false, neNin := false, each := false, needsDecimal := false, operatorMap := false, logical := false, logicalConst := false, topNI := false, fieldNI := false, updater := false, updateInline := false, pushMod := false, stageImpl := false, exprHit := none, exprNI := true, grouping := true, groupInline := false, typeImpl := false, typeNone := false }
+  { op := true, comment := false, expr := false, not_ := false, all := false, exists_ := false, neNin := false, each := false, needsDecimal := false, operatorMap := false, logical := false, logicalConst := false, topNI := false, fieldNI := false, updater := false, updateInline := false, updateChecked := false, pushMod := false, stageImpl := false, exprHit := none, exprNI := true, grouping := true, groupInline := false, typeImpl := false, typeNone := false }
 
 /-! distinct vectors of observations: (site, position of the dispatcher, observed) -/
 def sv_0 : List (Nat × Position × Disposition) :=
